@@ -330,6 +330,15 @@ class Tr:
                 return self.expr(sub)
             if ck in ("IntegralCast", "IntegralToBoolean", "BooleanToSignedIntegral"):
                 return self.cast(self.expr(sub), ctype(sub), ctype(n))
+            if ck == "UserDefinedConversion" and ctype(n)[0] == "bool":
+                # e.g. std::vector<bool>::reference -> bool : `section_generated[index]`
+                names = []
+                for x in walk(sub):
+                    if x.get("kind") == "DeclRefExpr" and x.get("referencedDecl", {}).get("kind") in ("VarDecl", "ParmVarDecl"):
+                        nm2 = x["referencedDecl"].get("name", "")
+                        if nm2 and nm2 not in names: names.append(nm2)
+                if names:
+                    return self.fv("_".join(names), "Bool")
             raise Broken(f"cast kind {ck}")
         if k == "UnaryOperator":
             op = n["opcode"]; sub = inner[0]
@@ -557,6 +566,8 @@ class Tr:
 
     def assign_target(self, s):
         lhs = s["inner"][0]
+        if lhs["kind"] == "MemberExpr" and lhs.get("inner") and lhs["inner"][0].get("kind") == "CXXThisExpr":
+            return lname(lhs["name"])
         if lhs["kind"] != "DeclRefExpr":
             raise Broken("assignment to a non-variable")
         return lname(lhs["referencedDecl"]["name"])
@@ -754,7 +765,8 @@ def select(fn, sel):
         for n in walk(body):
             if n.get("kind") == want:
                 if i == nth:
-                    return strip_comments(n)[0]
+                    ch = [c for c in strip_comments(n) if c.get("kind") != "DeclStmt"]
+                    return ch[0]
                 i += 1
         raise Broken(f"{kind} #{nth} not found")
     if kind == "callarg":
